@@ -17,6 +17,7 @@ func init() {
 			"a transaction id is incremented exactly once, privately (C01.R7b); after the meta write Commit cannot fail and runs the commit handlers only after the locks were released. " +
 			"NOT decided: race freedom in general (only the listed fields, only lock-set reasoning), serial equivalence of read-modify-write, lost wake-ups of the batch timer, panicking exits of unmanaged transactions.",
 		Run: func(c *Ctx) {
+			ruleDataFileClosedOnlyByClose(c, "C03.R12") // a committed-looking database that cannot write any more: the writer handle is closed only by Close
 			c03R1(c, "C03.R1")
 			c03R2(c, "C03.R2")
 			c03R3(c, "C03.R3")
